@@ -146,8 +146,18 @@ def _run_net(ctx: Ctx):
         model = [rnet.canon_model_answer(out[p]) for p in pos]
         ctx.cov["traces_validated_against_impl"] += 1
         notes = case.get("notes", {})
-        ctx.count("net-hypotheses-of-arp-sound-theorem:" + out[pos[0] - 1])
-        for key in ("via_host", "gw_is_host", "gw_off_subnet", "dmz_cross"):
+        good = out[pos[0] - 2] if lines_all[pos[0] - 1].startswith("needfuel") else out[pos[0] - 1]
+        ctx.count("net-hypotheses-of-arp-sound-theorem:" + good)
+        # instances of C08_operation_terminates: from a checked configuration every probed ping finishes within fuelBound
+        lo = pos[0] - 2
+        hi = pos[-1]
+        for q in range(lo, hi):
+            if lines_all[q].startswith("needfuel"):
+                ctx.count(f"net-nesting-budget-needed(goodcfg={good}):<={out[q]}")
+                if good == "1" and out[q] == "none":
+                    ctx.oblige(f"fuel bound theorem instance on {name}", "correspondence", False,
+                               f"{lines_all[q]} needs more than fuelBound although the configuration passes goodCfgB")
+        for key in ("via_host", "gw_is_host", "gw_off_subnet", "dmz_cross", "recursive_nh"):
             if notes.get(key):
                 ctx.count("net-misconfig:" + key)
         if notes.get("dual_homed") is not None:
@@ -183,7 +193,7 @@ def _run_net(ctx: Ctx):
                 ctx.count("net-model-out-of-fuel")
         ctx.case(["net", case], nontrivial)
         bad = rnet.oracle(case, records)
-        if not bad and out[pos[0] - 1] == "1" and not (impl and impl[0] == "OOF"):
+        if not bad and good == "1" and not (impl and impl[0] == "OOF"):
             bad = rnet.arp_sound_oracle(case, impl)
             ctx.count("net-arp-sound-checked-on-impl")
         if bad:
